@@ -86,3 +86,101 @@ theorem wire_system_empty (c : ConstId) (node ack sub : Int) (o : Option Int) (h
       numDigits_small 0 (by omega), numDigits_small _ h3⟩
 
 end MySensors
+
+namespace MySensors
+
+theorem hexDigitChar_props : ∀ d : Fin 16, isSpace (hexDigitChar d.val) = false ∧ hexDigitChar d.val ≠ ';' := by
+  decide
+
+theorem hexBytes_chars (bs : List Nat) : ∀ ch ∈ hexBytes bs, ∃ d : Fin 16, ch = hexDigitChar d.val := by
+  intro ch hch
+  simp only [hexBytes, List.mem_flatMap] at hch
+  obtain ⟨b, _, hb⟩ := hch
+  simp only [hexByte, List.mem_cons, List.mem_nil_iff, or_false] at hb
+  rcases hb with rfl | rfl
+  · exact ⟨⟨b / 16 % 16, Nat.mod_lt _ (by decide)⟩, rfl⟩
+  · exact ⟨⟨b % 16, Nat.mod_lt _ (by decide)⟩, rfl⟩
+
+theorem carryable_of_chars (s : Str) (h : ∀ ch ∈ s, isSpace ch = false ∧ ch ≠ ';') : carryable s := by
+  refine ⟨fun hm => (h _ hm).2 rfl, ?_⟩
+  intro ch hl
+  exact (h ch (List.mem_of_getLast? hl)).1
+
+theorem carryable_hexBytes (bs : List Nat) : carryable (hexBytes bs) := by
+  apply carryable_of_chars
+  intro ch hch
+  obtain ⟨d, rfl⟩ := hexBytes_chars bs ch hch
+  exact hexDigitChar_props d
+
+theorem carryable_append (a b : Str) (ha : ∀ ch ∈ a, isSpace ch = false ∧ ch ≠ ';')
+    (hb : ∀ ch ∈ b, isSpace ch = false ∧ ch ≠ ';') : carryable (a ++ b) := by
+  apply carryable_of_chars
+  intro ch hch
+  rcases List.mem_append.mp hch with h | h
+  · exact ha ch h
+  · exact hb ch h
+
+theorem fwIntToHex_chars (ws : List Nat) (p : Str) (h : fwIntToHex ws = some p) :
+    ∀ ch ∈ p, isSpace ch = false ∧ ch ≠ ';' := by
+  unfold fwIntToHex at h
+  split at h
+  · cases h
+    intro ch hch
+    obtain ⟨d, rfl⟩ := hexBytes_chars _ ch hch
+    exact hexDigitChar_props d
+  · cases h
+
+theorem renderInt_carryable (n : Int) : carryable (renderInt n) := by
+  apply carryable_of_chars
+  intro ch hch
+  rcases renderInt_chars n ch hch with rfl | ⟨d, rfl⟩
+  · exact ⟨minus_props.1, by decide⟩
+  · exact ⟨(digitChar_props d).1, (digitChar_props d).2.2.1⟩
+
+/-- wire-validity transfers along a change of ack to 0 and of the payload, given the new payload's rule -/
+theorem validate_payload (c : ConstId) (m : Msg) (p : Str) (a : Int) (ha : a = 0 ∨ a = 1)
+    (hv : validate c m = true) (hp : evalV (payloadRule (Tables.tables c) m.type m.sub) p = true) :
+    validate c ⟨m.node, m.child, m.type, a, m.sub, p⟩ = true := by
+  simp only [validate, Bool.and_eq_true] at hv ⊢
+  exact ⟨C05_headerOk_ack _ m p a ha hv.1, hp⟩
+where
+  C05_headerOk_ack (t : VTables) (m : Msg) (p : Str) (a : Int) (ha : a = 0 ∨ a = 1) (h : headerOk t m = true) :
+      headerOk t { m with ack := a, payload := p } = true := by
+    simp only [headerOk, childOk, typeOk, Bool.and_eq_true, decide_eq_true_eq] at h ⊢
+    obtain ⟨⟨⟨⟨h1, h2⟩, h3⟩, _⟩, h5⟩ := h
+    exact ⟨⟨⟨⟨h1, h2⟩, h3⟩, ha⟩, h5⟩
+
+theorem validate_ack (c : ConstId) (m : Msg) (hv : validate c m = true) : m.ack = 0 ∨ m.ack = 1 := by
+  simp only [validate, headerOk, Bool.and_eq_true, decide_eq_true_eq] at hv
+  exact hv.1.1.2
+
+theorem validate_rule (c : ConstId) (m : Msg) (hv : validate c m = true) :
+    evalV (payloadRule (Tables.tables c) m.type m.sub) m.payload = true := by
+  simp only [validate, Bool.and_eq_true] at hv
+  exact hv.2
+
+/-- reboot reply / presentation request / discover: system messages with empty payload -/
+theorem wire_reboot (c : ConstId) (m : Msg) (sub : Int) (ha : Accepted c m)
+    (hs : (Tables.tables c).iReboot = some sub) :
+    Wire c ⟨m.node, 255, (Tables.tables c).mtInternal, 0, sub, []⟩ := by
+  have hf := reply_facts c
+  simp only [replyFacts, Bool.and_eq_true] at hf
+  exact wire_system_empty c m.node 0 sub _ (validate_node_range c m ha.1) rfl hs
+    hf.1.1.1.1.1.1.1.1.1.1.1.1.1.1.1.1.1.1 (accepted_facts ha).2.1
+
+theorem wire_presentation (c : ConstId) (node sub : Int) (hn : 0 ≤ node ∧ node ≤ 255)
+    (hs : (Tables.tables c).iPresentation = some sub) :
+    Wire c ⟨node, 255, (Tables.tables c).mtInternal, 0, sub, []⟩ := by
+  have hf := reply_facts c
+  simp only [replyFacts, Bool.and_eq_true] at hf
+  exact wire_system_empty c node 0 sub _ hn rfl hs hf.1.1.1.1.1.1.1.1.1.1.1.1.1.1.1.1.1.2
+    (numDigits_small node (by omega))
+
+theorem wire_discover (c : ConstId) (sub : Int) (hs : (Tables.tables c).iDiscover = some sub) :
+    Wire c ⟨255, 255, (Tables.tables c).mtInternal, 0, sub, []⟩ := by
+  have hf := reply_facts c
+  simp only [replyFacts, Bool.and_eq_true] at hf
+  exact wire_system_empty c 255 0 sub _ (by omega) rfl hs hf.1.1.1.1.1.1.1.1.1.1.1.1.1.1.1.1.2
+    (numDigits_small 255 (by omega))
+
+end MySensors
